@@ -1625,6 +1625,10 @@ class Namespace:
         raise Unsupported(f"{self.name}.{attr}")
 
 
+class MissingLocal(Unsupported, AttributeError):
+    pass
+
+
 class LoopView:
     """what a loop invariant may look at: locals (and parameters) by name"""
 
@@ -1637,7 +1641,9 @@ class LoopView:
         try:
             return self._env.lookup(name)
         except KeyError:
-            raise AttributeError(name)
+            # the invariant speaks about a local the function no longer has: the loop was restructured and the sidecar
+            # invariant does not apply -- undecided (the contract's native search still runs), not a checker crash
+            raise MissingLocal(f"loop invariant refers to the local {name!r}, which the function does not have (restructured loop)")
 
     def has(self, name):
         try:
